@@ -217,3 +217,13 @@ def _e14(P):
 def _e15(P, R):
     E = _ed()
     return z3.Implies(E.f_y(P) == E.f_y(R), z3.Or(E.f_x(P) == E.f_x(R), E.f_x(P) == (E.Q - E.f_x(R)) % E.Q))
+
+
+@lemma("ed_decode_complete", 3, False,
+       "M-xrecover (T2): decoding is complete - if b is the canonical encoding of a non-identity L-torsion point P then the "
+       "x-recovery of RFC 8032 5.1.3 finds P: the decoded (x,y) is on the curve and is P  (sqrt for Q = 5 mod 8; Lean-provable, not done here; "
+       "bounded cross-check: differential scenarios s_elements/s_sessions decode thousands of honest encodings)")
+def _e16(b, x, y):
+    from . import spec_sym as S
+    E = _ed()
+    return z3.Implies(S.f_ed_decodable(b), z3.And(E.f_oncurve(x, y), E.f_aff(x, y) == S.f_ed_dec(b)))
